@@ -588,6 +588,13 @@ func (e *Exec) initCallHistory(st *State, fi *FuncInfo) {
 	e.callAsserted = map[*CallAssert]bool{}
 	info := fi.Pkg.TypesInfo
 	ast.Inspect(fi.Decl.Body, func(n ast.Node) bool {
+		if _, isSend := n.(*ast.SendStmt); isSend && e.calledObj["chan<-"] == nil {
+			// __called("chan<-"): a send statement was executed
+			o := e.newPseudo("called_send", types.Typ[types.Bool])
+			e.calledObj["chan<-"] = o
+			st.Vars[o] = False
+			return true
+		}
 		c, ok := n.(*ast.CallExpr)
 		if !ok {
 			return true
